@@ -620,9 +620,21 @@ Fixpoint known_bound_after_with (after_with : bool) (bound : list N) (cs : list 
   | CWith p _ :: rest => known_bound_after_with true (map snd (p_items p)) rest
   end.
 
+(* two or more MATCH clauses with a WHERE of their own, then an UNWIND (no WITH in between): the
+   WHERE of the earlier MATCH is lost *)
+Fixpoint known_wheres_then_unwind (n : nat) (cs : list clause) : bool :=
+  match cs with
+  | [] => false
+  | CMatch _ _ (Some _) :: rest => known_wheres_then_unwind (S n) rest
+  | CMatch _ _ None :: rest => known_wheres_then_unwind n rest
+  | CUnwind _ _ :: rest => Nat.leb 2 n || known_wheres_then_unwind n rest
+  | CWith _ _ :: rest => known_wheres_then_unwind 0 rest
+  end.
+
 Definition Known_syntactic (q : query) : bool :=
   existsb (fun s => known_varlen s || known_optwhere s || known_match_unwind_with (q_clauses s)
-                    || known_bound_after_with false [] (q_clauses s)) (q_parts q).
+                    || known_bound_after_with false [] (q_clauses s)
+                    || known_wheres_then_unwind 0 (q_clauses s)) (q_parts q).
 
 (* some projection of the query carries a LIMIT: the engine may stop evaluating before it reaches
    the row on which the reference semantics raises an arithmetic error *)
